@@ -80,6 +80,16 @@ def directed():
         out.append([["net_default", "refuse", 0.0]]
                    + [["send", S.KINDS[i % 3], "long", mode] for i in range(13)]
                    + [["net_default", "accept", 0.0], ["adv", 2.5], ["q"]])
+    # the application changes a policy object after having sent with it: what a held message
+    # may live was fixed when it was accepted
+    out.append([["net_default", "refuse", 0.0], ["send", "zone_ctrl", "short", "inline"],
+                ["mutate_policy", "short", 30.0], ["send", "ac_ctrl", "long", "inline"],
+                ["adv", 0.8], ["net_default", "accept", 0.0], ["adv", 2.5], ["q"]])
+    out.append([["net_default", "refuse", 0.0]]
+               + [["send", S.KINDS[i % 3], "long", "inline"] for i in range(10)]
+               + [["mutate_policy", "long", 0.1], ["adv", 0.5],
+                  ["send", "zone_ctrl", "idem", "inline"],
+                  ["net_default", "accept", 0.0], ["adv", 2.5], ["q"]])
     out.append([["net_default", "refuse", 0.0], ["send", "zone_ctrl", "long", "inline"],
                 ["close"], ["send", "ac_ctrl", "long", "inline"],
                 ["net_default", "accept", 0.0], ["open"], ["adv", 3.0]])
